@@ -33,6 +33,10 @@ def rule_buffer(chk):
     bcls = ctx.cls("_output", "BufferingDestination")
     call = bcls.find_method("__call__")
     init = bcls.find_method("__init__")
+    if call is not None and init is None and "messages" in bcls.attrs:
+        chk.bad("C12.buffer", "BufferingDestination.messages:per-instance", chk.where(bcls),
+                "the buffer list is a class-level attribute shared by every BufferingDestination (every Destinations instance, e.g. in tests, replays the others' messages)")
+        return
     chk.need(call is not None and init is not None, "BufferingDestination.__call__/__init__ vanished")
     cfg = ctx.cfg(call)
     mparam = [a.arg for a in call.node.args.args][1]
@@ -273,4 +277,6 @@ def run(chk):
     rule_handover(chk)
     rule_global(chk)
     rule_remove(chk)
+    common.rule_instance_state(chk, "C12", [("_output", "Destinations"), ("_output", "BufferingDestination")])
+    common.rule_defaults(chk, "C12", modules=("_output",))
     rule_lock(chk)
